@@ -407,7 +407,7 @@ pub fn run(id: &str, tier: Tier, replay: Option<&str>) -> i32 {
         };
         let mut excluded: Vec<usize> = vec![];
         for _round in 0..6 {
-            acc.eval(1);
+            acc.count("rustc_batch_builds", 1);
             match build(&b) {
                 Ok(()) => break,
                 Err(per) => {
@@ -426,6 +426,9 @@ pub fn run(id: &str, tier: Tier, replay: Option<&str>) -> i32 {
                             });
                         }
                         acc.outcome("does_not_compile");
+                        if c22 {
+                            acc.eval(1);
+                        }
                         excluded.push(i);
                     }
                     let _ = write_main(&b, &excluded);
@@ -436,6 +439,9 @@ pub fn run(id: &str, tier: Tier, replay: Option<&str>) -> i32 {
         compiled_total += good.len() as u64;
         for (i, m) in &good {
             acc.outcome("compiles");
+            if c22 {
+                acc.eval(1);
+            }
             acc.distinct(&(m.case.par.clone(), m.case.min_boxed, m.case.range, m.case.trim));
             if !c22 && !m.case.tokens.is_empty() {
                 c23_module(*i, m, &acc);
